@@ -72,6 +72,8 @@ pub struct SimState {
     /// transport fault: a 200 object response announces its full Content-Length but the connection is closed
     /// after this many body bytes
     pub cut_body: Option<usize>,
+    /// transport: the body is sent with Transfer-Encoding: chunked (no Content-Length), in chunks of this many bytes
+    pub chunked: usize,
 }
 
 pub struct Sim {
@@ -196,11 +198,13 @@ impl Sim {
                         match kv.find('=') { Some(i) => (percent_decode(&kv[..i], true), percent_decode(&kv[i + 1..], true)), None => (percent_decode(kv, true), String::new()) }
                     }).collect();
                     let mut transport = (0usize, None);
+                    let mut chunked = 0usize;
                     let resp = {
                         let mut s = st.lock().expect("state");
                         let req = Req { index: s.log.len(), method, raw_target: target.clone(), path: percent_decode(rawpath, false), query };
                         s.log.push(req.clone());
                         let scripted = { let mut h = hd.lock().expect("handler"); match h.as_mut() { Some(f) => f(&req, &mut s), None => None } };
+                        chunked = s.chunked;
                         transport = (s.frame, s.cut_body);       // after the handler: a script may set the transport of this very response
                         match scripted {
                             Some(r) => r,
@@ -216,13 +220,23 @@ impl Sim {
                             }
                         }
                     };
-                    let mut out = format!("HTTP/1.1 {} {}\r\nContent-Length: {}\r\nConnection: close\r\n", resp.status, reason(resp.status), resp.body.len());
+                    let mut out = if chunked > 0 && transport.1.is_none() { format!("HTTP/1.1 {} {}\r\nTransfer-Encoding: chunked\r\nConnection: close\r\n", resp.status, reason(resp.status)) }
+                                  else { format!("HTTP/1.1 {} {}\r\nContent-Length: {}\r\nConnection: close\r\n", resp.status, reason(resp.status), resp.body.len()) };
                     for (k, v) in &resp.headers { out.push_str(&format!("{}: {}\r\n", k, v)); }
                     out.push_str("\r\n");
                     let _ = sock.write_all(out.as_bytes()).await;
                     let is_object_ok = resp.status == 200 && resp.headers.iter().any(|(k, _)| k == "Last-Modified");
                     let body: &[u8] = match transport.1 { Some(k) if is_object_ok => &resp.body[..k.min(resp.body.len())], _ => &resp.body[..] };
-                    if transport.0 == 0 { let _ = sock.write_all(body).await; }
+                    if chunked > 0 && transport.1.is_none() {
+                        // HTTP/1.1 chunked transfer coding: size in hex, CRLF, data, CRLF ... 0 CRLF CRLF
+                        for piece in body.chunks(chunked) {
+                            let _ = sock.write_all(format!("{:x}\r\n", piece.len()).as_bytes()).await;
+                            let _ = sock.write_all(piece).await;
+                            let _ = sock.write_all(b"\r\n").await;
+                        }
+                        let _ = sock.write_all(b"0\r\n\r\n").await;
+                    }
+                    else if transport.0 == 0 { let _ = sock.write_all(body).await; }
                     else {
                         let _ = sock.set_nodelay(true);
                         for piece in body.chunks(transport.0) {
@@ -256,7 +270,8 @@ impl Sim {
 
     pub fn set_handler(&self, h: Option<Handler>) { *self.handler.lock().expect("handler") = h; }
     pub fn put(&self, bucket: &str, key: &str, obj: Obj) { self.state.lock().expect("state").objects.insert(format!("{}/{}", bucket, key), obj); }
-    pub fn clear(&self) { let mut s = self.state.lock().expect("state"); s.objects.clear(); s.log.clear(); s.frame = 0; s.cut_body = None; }
+    pub fn clear(&self) { let mut s = self.state.lock().expect("state"); s.objects.clear(); s.log.clear(); s.frame = 0; s.cut_body = None; s.chunked = 0; }
+    pub fn set_chunked(&self, n: usize) { self.state.lock().expect("state").chunked = n; }
     pub fn set_frame(&self, n: usize) { self.state.lock().expect("state").frame = n; }
     pub fn set_cut_body(&self, k: Option<usize>) { self.state.lock().expect("state").cut_body = k; }
     pub fn clear_log(&self) { self.state.lock().expect("state").log.clear(); }
